@@ -7,8 +7,18 @@
    below is decided on all of it by computation and every cell is executed on
    the implementation on every run of the check. *)
 From Coq Require Import List Bool.
-From PA Require Import model.Dispatch proofs.DispatchProofs.
+From PA Require Import model.Dispatch proofs.DispatchProofs gen.DirGuards proofs.DirGuardsEq.
 Import ListNotations.
+
+(* The direction guards of the model are those of the current source:
+   gen/DirGuards.v is regenerated from the `if ... direction ...: raise`
+   statements of the ten transform functions and of Transform._verify_some_inputs
+   on every run (tools/translate/dir_guards.py). *)
+Theorem C20_direction_guards_are_source : forall v m d,
+  outcome_of {| r_via := v; r_meth := m; r_dir := d; r_shape := Fine; r_opt := NoOpt |} =
+  if (match v with Fn => fn_dir_raises m d | Tr => tr_dir_raises m d end) then Raise else Performs m d.
+Proof. exact model_dir_guards. Qed.
+Print Assumptions C20_direction_guards_are_source.
 
 Theorem C20_request_space : length all_requests = 315.
 Proof. exact request_space_size. Qed.
